@@ -34,7 +34,7 @@ func parseEvents(obs string) []obsEvent {
 
 type cfgKey struct {
 	act, thr, idx uint64
-	keypers     string
+	keypers       string
 }
 
 type refConfig struct {
